@@ -427,7 +427,6 @@ func handleBoundToName(c *eng.Ctx, rule string) {
 	}
 }
 
-
 // wholeInputJSON: the client library decodes JSON it must reject when
 // malformed (cache documents, secret values for struct fields, service
 // replies) with json.Unmarshal, which fails on anything after the first
